@@ -351,6 +351,16 @@ def extra_checks(rng, tier, g, info):
     info["soak_derivations"] = pumped
 
 
+def literal_ops(lit):
+    """account numbers and row indexes equal to the integer literals of the source (purpose numbers, coin types, …)"""
+    w = "seedb:%s:%s" % (hx(bytes(range(16, 48))), "01"[lit % 2])
+    if lit < 2 ** 31:
+        yield "generate %s %d %d %d" % (w, lit, lit, lit + 1)
+
+
+LITERAL_BUDGET = 24
+
+
 def cases(rng, tier):
     from . import extra
     yield from _cases_core(rng, tier)
